@@ -128,6 +128,15 @@ def pauli_vector(rho, n):
     return vec.real.tolist(), ""
 
 
+def rows_to_dm(rows):
+    """density matrix of the stabilizer state with the given signed generators: prod (1 + (-1)^s P) / 2."""
+    n = len(rows[0]["p"])
+    rho = np.eye(2 ** n, dtype=complex)
+    for r in rows:
+        rho = rho @ (np.eye(2 ** n) + (-1) ** r["s"] * pauli_matrix(r["p"])) / 2
+    return rho
+
+
 def pv_obs(rho, n) -> dict:
     """density matrix -> {"err","bad","n","vec":[[num,den]..]} with exact rationals."""
     vec, bad = pauli_vector(rho, n)
